@@ -259,7 +259,21 @@ def _nested_identity(case, topo, values0, args, labels):
     if case["nest"]["depth"] == 2:
         wrapper = {"k": "graph", "name": names[1], "graph": {"nodes": [wrapper], "name": "middle_graph"}}
         path.insert(0, names[1])
-    outer = _materialise(topo[:a]) + [wrapper] + _materialise(topo[b:])
+    after = _materialise(topo[b:])
+    if d[2] % 2 == 1:
+        # the wrapper(s) expose the interrupt's outputs under OTHER names (with_outputs); the pause still names the interrupt's own
+        # output names: that is what the node inside is called and answers to
+        ren = {o: o + "_w" for o in target["outs"]}
+        inner_most = wrapper if case["nest"]["depth"] == 1 else wrapper["graph"]["nodes"][0]
+        inner_most["renames"] = [{"kind": "outputs", "map": dict(ren)}]
+        if case["nest"]["depth"] == 2:
+            ren2 = {v: v + "2" for v in ren.values()}
+            wrapper["renames"] = [{"kind": "outputs", "map": dict(ren2)}]
+            ren = {o: ren2[v] for o, v in ren.items()}
+        after = [{**n, "params": [ren.get(q, q) for q in n.get("params", [])], "wait_for": [ren.get(q, q) for q in n.get("wait_for", [])]} if n.get("params") or n.get("wait_for") else n for n in after]
+        after = [({k_: v_ for k_, v_ in n.items() if k_ != "wait_for" or v_}) for n in after]
+        labels.add("nested_wrapper_renames_the_interrupt_outputs")
+    outer = _materialise(topo[:a]) + [wrapper] + after
     # other pausing interrupts outside the wrapper are auto-answered so the nested one is reached
     outer = [({**n, "mode": "auto"} if n.get("k") == "interrupt" else n) for n in outer]
     ctx = Ctx()
